@@ -232,6 +232,59 @@ def gen_tuple_exhaustive(rng, kinds, limit=None, variant=None):
     return out
 
 
+def gen_stale_topic(rng, idx):
+    """A group consuming k = 2..4 topics, all with fresh broker offsets and non-zero lag.  A commit on ONE topic s passes its
+    broker lookup, the whole deleteTopic(s) runs, the commit then re-creates the group's entry for s (the state of
+    conc_group_linearisable_refuted): the group now holds a topic the broker map lacks.  The group is then fetched several
+    times (Go's map order decides whether the stale topic comes before the live ones); a third worker may refresh broker
+    offsets of the live topics or re-create s meanwhile.  Every partition of every topic of every reply is checked."""
+    env = Env(rng)
+    k = rng.choice([2, 2, 3, 4])
+    topics = list(range(1, k + 1))
+    s = rng.choice(topics)
+    intervals = rng.choice([2, 3, 3, 5])
+    cnts = {t: rng.choice([1, 2, 2, 3]) for t in topics}
+    pre = []
+    for rnd in range(rng.choice([1, 2, 3])):
+        for t in topics:
+            for p in range(cnts[t]):
+                pre.append(["B", 1, t, p, cnts[t], env.nxt_off() + 100 * (rnd + 1)])
+    groups = [1] if rng.random() < 0.6 else [1, 2]
+    for g in groups:
+        for t in topics:
+            for p in range(cnts[t]):
+                if rng.random() < 0.9:
+                    for _ in range(rng.choice([1, 2, 3])):
+                        # commits well below the broker offsets: non-zero lag everywhere
+                        pre.append(["C", 1, g, t, p, rng.randrange(10, 900), env.nxt_order(), NOW * 1000 + rng.choice([0, 1000, 5000])])
+    ps = rng.randrange(cnts[s])
+    nfetch = rng.choice([3, 4, 6])
+    q0 = [["C", 1, 1, s, ps, rng.randrange(10, 900), env.nxt_order(), NOW * 1000 + 6000]] + [["FX", 1, 1] for _ in range(nfetch)]
+    q1 = [["DT", 1, s]]
+    q2 = []
+    mode = rng.choice(["plain", "refresh", "recreate", "random"])
+    if mode == "refresh":
+        live = [t for t in topics if t != s]
+        for _ in range(rng.choice([1, 2, 3])):
+            t = rng.choice(live)
+            q2.append(["B", 1, t, rng.randrange(cnts[t]), cnts[t], env.nxt_off() + 5000])
+    elif mode == "recreate":
+        c2 = rng.choice([1, cnts[s], cnts[s] + 1])
+        q2.append(["B", 1, s, rng.randrange(c2), c2, env.nxt_off() + 5000])
+    queues = [q0, q1] + ([q2] if q2 else [])
+    if mode == "random":
+        sched = random_schedule(rng, queues)
+    else:
+        # commit: prologue + broker lookup ; the whole deleteTopic (prologue, consumer list, one step per group, broker) ;
+        # the rest of the commit ; then fetches, with the third worker's steps sprinkled in
+        sched = [0, 0] + [1] * (3 + len(groups)) + [0, 0]
+        tail = [0] * (4 * nfetch) + [2] * sum(MAXSTEPS[op[0]] for op in q2)
+        if rng.random() < 0.5:
+            rng.shuffle(tail)
+        sched += tail
+    return fmt_case(intervals, 100000, rng.choice([0, 0, 3]), [1], pre, queues, sched), ["stale", mode, "k%d" % k]
+
+
 # the schedules behind the findings (kept in corpus/C08/cases.txt as well)
 def crash_schedule_f6iii():
     """deleteTopic(consumer half) ; commit (re-creates the consumer topic with the OLD partition count) ;
